@@ -107,8 +107,12 @@ pub fn parse(text: &str, level: LuaLanguageLevel, cfg: &LuaFormatConfig) -> Opti
     // trailing table separators: drop a `,` that directly precedes `}`
     let mut out: Vec<Tok> = Vec::with_capacity(toks.len());
     for (i, t) in toks.iter().enumerate() {
-        if t.text == "," && toks.get(i + 1).map(|n| n.text == "}").unwrap_or(false) {
-            continue;
+        if t.text == "," {
+            // next non-comment token
+            let next = toks[i + 1..].iter().find(|n| !n.comment);
+            if next.map(|n| n.text == "}").unwrap_or(false) {
+                continue;
+            }
         }
         out.push(t.clone());
     }
